@@ -853,3 +853,93 @@ func enclosingRoot(fn *ssa.Function) *ssa.Function {
 	}
 	return fn
 }
+
+// fullSliceLoop: instruction `in` sits in the body of an index loop `for i := 0; i < len(S); i++` (the
+// shape go/ssa gives `for i, x := range S`) over a slice S satisfying isSlice, it operates on S[i], it is
+// passed on every iteration, and the loop is only left when i reaches len(S). `elem` must be the
+// IndexAddr whose element `in` works on.
+func fullSliceLoop(p *Prog, in ssa.Instruction, elem *ssa.IndexAddr, isSlice func(ssa.Value) bool) (bool, string) {
+	fn := in.Parent()
+	loop := loopBlocks(in.Block())
+	if len(loop) == 0 {
+		return false, "not inside a loop"
+	}
+	if elem == nil || !isSlice(stripConv(elem.X)) {
+		return false, "the element worked on does not belong to the whole slice (a sub-slice or another slice is traversed)"
+	}
+	var hdr *ssa.BasicBlock
+	var ind ssa.Value // the value used as index inside the body
+	for b := range loop {
+		ifi, ok := b.Instrs[len(b.Instrs)-1].(*ssa.If)
+		if !ok {
+			continue
+		}
+		bo, ok := ifi.Cond.(*ssa.BinOp)
+		if !ok || bo.Op != token.LSS {
+			continue
+		}
+		ln, ok := bo.Y.(*ssa.Call)
+		if !ok {
+			continue
+		}
+		if bi, ok := ln.Common().Value.(*ssa.Builtin); !ok || bi.Name() != "len" || !isSlice(stripConv(ln.Common().Args[0])) {
+			continue
+		}
+		// X is phi (start 0, +1) or phi+1 (start -1)
+		x := bo.X
+		var phi *ssa.Phi
+		start := int64(0)
+		if add, ok := x.(*ssa.BinOp); ok && add.Op == token.ADD {
+			if c, ok := constInt(add.Y); ok && c == 1 {
+				if ph, ok := add.X.(*ssa.Phi); ok {
+					phi, start = ph, -1
+				}
+			}
+		} else if ph, ok := x.(*ssa.Phi); ok {
+			phi = ph
+		}
+		if phi == nil || len(phi.Edges) != 2 {
+			continue
+		}
+		okInd := false
+		for i, e := range phi.Edges {
+			if c, ok := constInt(e); ok && c == start {
+				o := phi.Edges[1-i]
+				if start == -1 {
+					okInd = o == x
+				} else if add, ok := o.(*ssa.BinOp); ok && add.Op == token.ADD && add.X == ssa.Value(phi) {
+					c1, ok1 := constInt(add.Y)
+					okInd = ok1 && c1 == 1
+				}
+			}
+		}
+		if okInd {
+			hdr, ind = b, x
+		}
+	}
+	if hdr == nil {
+		return false, "no loop test of the form i < len(<the whole slice>) with i running from 0 in steps of 1"
+	}
+	if elem.Index != ind {
+		return false, "the element worked on is not indexed by the loop's induction variable"
+	}
+	for b := range loop {
+		for k, s := range b.Succs {
+			if !loop[s] && !(b == hdr && k == 1) {
+				return false, "the loop can be left at " + p.InstrPos(b.Instrs[len(b.Instrs)-1]) + " before every element was visited"
+			}
+		}
+	}
+	body := hdr.Succs[0]
+	if len(body.Instrs) > 0 && body.Instrs[0] != in {
+		back := hdr.Instrs[0]
+		if ReachableAvoiding(fn, body.Instrs[0], back, isOnlyInstr(in), nil) {
+			return false, "an iteration can skip the element"
+		}
+	}
+	return true, ""
+}
+
+func isOnlyInstr(in ssa.Instruction) func(ssa.Instruction) bool {
+	return func(x ssa.Instruction) bool { return x == in }
+}
